@@ -206,10 +206,20 @@ func cellFromCellBlock(b []byte) (*pb.Cell, uint32, error) {
 			"buffer is too small: expected %d, got %d", int(kvLen)+4, len(b))
 	}
 
+	if kvLen < 4+4+2 {
+		return nil, 0, fmt.Errorf(
+			"KeyValue is too small: expected at least %d, got %d", 4+4+2, kvLen)
+	}
+
 	rowKeyLen := binary.BigEndian.Uint32(b[4:8])
 	valueLen := binary.BigEndian.Uint32(b[8:12])
 	keyLen := binary.BigEndian.Uint16(b[12:14])
 	b = b[14:]
+
+	if len(b) < int(keyLen)+1 {
+		return nil, 0, fmt.Errorf(
+			"buffer is too small for the row: expected %d, got %d", int(keyLen)+1, len(b))
+	}
 
 	key := b[:keyLen]
 	b = b[keyLen:]
@@ -217,8 +227,18 @@ func cellFromCellBlock(b []byte) (*pb.Cell, uint32, error) {
 	familyLen := b[0]
 	b = b[1:]
 
+	if len(b) < int(familyLen) {
+		return nil, 0, fmt.Errorf(
+			"buffer is too small for the family: expected %d, got %d", familyLen, len(b))
+	}
+
 	family := b[:familyLen]
 	b = b[familyLen:]
+
+	if uint64(rowKeyLen) < uint64(keyLen)+uint64(familyLen)+2+1+8+1 {
+		return nil, 0, fmt.Errorf("HBase has lied about KeyValue key length: %d is less than "+
+			"row length %d + family length %d + %d", rowKeyLen, keyLen, familyLen, 2+1+8+1)
+	}
 
 	qualifierLen := rowKeyLen - uint32(keyLen) - uint32(familyLen) - 2 - 1 - 8 - 1
 	if 4 /*rowKeyLen*/ +4 /*valueLen*/ +2 /*keyLen*/ +
@@ -227,6 +247,11 @@ func cellFromCellBlock(b []byte) (*pb.Cell, uint32, error) {
 		return nil, 0, fmt.Errorf("HBase has lied about KeyValue length: expected %d, got %d",
 			kvLen, 4+4+2+uint32(keyLen)+1+uint32(familyLen)+qualifierLen+8+1+valueLen)
 	}
+	if uint64(len(b)) < uint64(qualifierLen)+8+1+uint64(valueLen) {
+		return nil, 0, fmt.Errorf("buffer is too small for qualifier, timestamp, type and value: "+
+			"expected %d, got %d", uint64(qualifierLen)+8+1+uint64(valueLen), len(b))
+	}
+
 	qualifier := b[:qualifierLen]
 	b = b[qualifierLen:]
 
